@@ -274,6 +274,9 @@ func genField(rng *rand.Rand, sb *strings.Builder, class string, s, f int, gener
 		h := 1 + rng.Intn(len(inject)-1)
 		sb.WriteString(" /* " + prefix + "@tag " + kvString(inject[:h], " ") + " */ /* @tag " + kvString(inject[h:], " ") + " */\n")
 	} else if class == "G6" && rng.Intn(4) == 0 {
+		// a first trailing comment WITHOUT @tag, then the annotation in a second one
+		sb.WriteString(" /* 备注 note */ /* " + prefix + "@tag " + kvString(inject, " ") + " */\n")
+	} else if class == "G6" && rng.Intn(4) == 0 {
 		sb.WriteString(" /* " + prefix + "@tag " + kvString(inject, " ") + " */\n")
 	} else {
 		sb.WriteString(" // " + prefix + "@tag " + kvString(inject, " ") + trail + "\n")
